@@ -405,6 +405,32 @@ def lpadz(d, l):
     return [0] * max(d, 0) + list(l)
 
 
+LCONS = z3.Function("lcons", I, IntList, IntList)          # [v] + l      (list.insert(0, v))
+LSET = z3.Function("lset", IntList, I, I, IntList)        # l with l[i] replaced by v (0 <= i < len l)
+BOL = z3.Function("bytes_of_list", IntList, Bytes)        # b"".join(int2byte(d) for d in l); total: octet i is l[i] mod 256
+
+
+def lcons(v, l):
+    if isinstance(l, SIntList) or isinstance(v, SVal):
+        return SIntList(LCONS(T(v), list_term(l)))
+    return [v] + list(l)
+
+
+def lset(l, i, v):
+    if isinstance(l, SIntList) or isinstance(i, SVal) or isinstance(v, SVal):
+        return SIntList(LSET(list_term(l), T(i), T(v)))
+    out = list(l)
+    if 0 <= i < len(out):
+        out[i] = v
+    return out
+
+
+def bol(l):
+    if isinstance(l, SIntList):
+        return SBytes(BOL(l.t))
+    return bytes(v % 256 for v in l)
+
+
 def list_term(l):
     """the IntList term of a (width-1) list value; concrete lists are built from lempty by lapp"""
     if isinstance(l, SIntList):
@@ -1043,6 +1069,36 @@ def _(d, l, i):
     return Implies_(And_(d >= 0, 0 <= i, i < d + llen(l)), eq(lat(lpadz(d, l), i), If_(i < d, 0, lat(l, i - d))))
 
 
+@axiom("lcons_len", ["int", "list"], lambda v, l: [lcons(v, l)])
+def _(v, l):
+    return eq(llen(lcons(v, l)), llen(l) + 1)
+
+
+@axiom("lcons_at", ["int", "list", "int"], lambda v, l, i: [lat(lcons(v, l), i)], domain=lambda v, l, i: 0 <= i <= len(l))
+def _(v, l, i):
+    return Implies_(And_(0 <= i, i <= llen(l)), eq(lat(lcons(v, l), i), If_(eq(i, 0), v, lat(l, i - 1))))
+
+
+@axiom("lset_len", ["list", "int", "int"], lambda l, i, v: [lset(l, i, v)], domain=lambda l, i, v: 0 <= i < len(l))
+def _(l, i, v):
+    return eq(llen(lset(l, i, v)), llen(l))
+
+
+@axiom("lset_at", ["list", "int", "int", "int"], lambda l, i, v, j: [lat(lset(l, i, v), j)], domain=lambda l, i, v, j: 0 <= i < len(l) and 0 <= j < len(l))
+def _(l, i, v, j):
+    return Implies_(And_(0 <= i, i < llen(l), 0 <= j, j < llen(l)), eq(lat(lset(l, i, v), j), If_(eq(i, j), v, lat(l, j))))
+
+
+@axiom("bol_len", ["list"], lambda l: [bol(l)])
+def _(l):
+    return eq(blen(bol(l)), llen(l))
+
+
+@axiom("bol_at", ["list", "int"], lambda l, i: [at(bol(l), i)], domain=lambda l, i: 0 <= i < len(l))
+def _(l, i):
+    return Implies_(And_(0 <= i, i < llen(l), 0 <= lat(l, i), lat(l, i) <= 255), eq(at(bol(l), i), lat(l, i)))
+
+
 def pow2_facts(t):
     """ground facts for one pow2 term: small exponents are evaluated"""
     return z3.And(*[z3.Implies(t == c, POW2(t) == 2 ** c) for c in list(range(0, 17)) + [24, 32, 40, 48, 56, 64]])
@@ -1052,7 +1108,7 @@ HEAVY = {"pow2_mono", "be_msb", "bytelen_mono", "shr_def", "shr_bound"}     # qu
 
 # optional theories: only obligations of contracts that ask for them get these axioms (keeps every other query small)
 GROUPS = {"shift": {"shr_zero", "shr_shr", "shr_cong", "shr_def", "shr_small", "shr_bound", "be_prefix"},
-          "list": {"llen_nonneg", "lapp_def", "lapp_at", "lrev_len", "lrev_at", "lpadz_len", "lpadz_at"}}
+          "list": {"llen_nonneg", "lapp_def", "lapp_at", "lrev_len", "lrev_at", "lpadz_len", "lpadz_at", "lcons_len", "lcons_at", "lset_len", "lset_at", "bol_len", "bol_at"}}
 _OPTIONAL = set().union(*GROUPS.values())
 
 
